@@ -125,6 +125,9 @@ func run() int {
 				outOfSchema = append(outOfSchema, sc.Type+": "+sc.Unsup)
 				continue
 			}
+			if sc.NoLayout != "" {
+				outOfSchema = append(outOfSchema, sc.Type+": "+sc.NoLayout)
+			}
 			cts, err := vc.ParseContractSource(sc.MarshalContractText(), "schema:"+sc.Type, sc.PkgPath)
 			if err != nil {
 				fmt.Fprintln(os.Stderr, "schema:", err)
@@ -513,6 +516,67 @@ func run() int {
 					ctxOf[bad] = rt.r2
 				}
 			}
+		}
+	}
+	// ---- escalation: what is still undecided gets one more attempt with three times the timeout and little
+	// parallelism, so that a machine under load does not turn a slow proof into an alarm
+	{
+		nc := NotClaimed{}
+		loadJSON(filepath.Join(*verifDir, "claims", *prop+".json"), &nc)
+		idx := map[*vc.Obligation]int{}
+		for i, o := range all {
+			idx[o] = i
+		}
+		var wg3 sync.WaitGroup
+		par3 := make(chan struct{}, 4)
+		var redo []*oblGroup
+		for _, name := range order {
+			g := groups[name]
+			if g.Kind == "cover" || g.Status != "undecided" {
+				continue
+			}
+			if _, skip := nc[name]; skip {
+				continue
+			}
+			redo = append(redo, g)
+			for _, o := range g.Instances {
+				if o.Status == "unsat" || o.Status == "trivial" || o.Status == "sat" {
+					continue
+				}
+				o := o
+				wg3.Add(1)
+				go func() {
+					par3 <- struct{}{}
+					defer wg3.Done()
+					defer func() { <-par3 }()
+					res := w.PF.Solve(scripts[idx[o]], timeout*3)
+					o.Status, o.Solver, o.TimeS, o.Raw, o.SMTHash = res.Status, res.Solver+"(escalated)", res.TimeS, res.Raw, res.Hash
+				}()
+			}
+		}
+		wg3.Wait()
+		esc := 0
+		for _, g := range redo {
+			all2 := true
+			for _, o := range g.Instances {
+				if o.Status == "sat" {
+					g.Status = "failed"
+					g.Worst = o
+					all2 = false
+					break
+				}
+				if o.Status != "unsat" && o.Status != "trivial" {
+					all2 = false
+				}
+			}
+			if all2 {
+				g.Status = "discharged"
+				g.Solver = "escalated"
+				esc++
+			}
+		}
+		if *verbose && len(redo) > 0 {
+			fmt.Fprintf(os.Stderr, "escalation: %d obligations retried with timeout x3, %d discharged\n", len(redo), esc)
 		}
 	}
 	if *verbose && intRetried > 0 {
